@@ -39,6 +39,9 @@ type SnapOpts struct {
 	NoData  bool
 	Budget  int
 	DirSize bool
+	// Tops: when the root itself cannot be observed (OrefaFS cannot Lstat or list "/"),
+	// the walk starts at root+name for each of these names that exists.
+	Tops []string
 }
 
 // Snapshot walks vfs from root using Lstat, ReadDir, ReadFile, Readlink and SameFile.
@@ -171,7 +174,23 @@ func Snapshot(vfs avfs.VFS, root string, o SnapOpts) *Snap {
 		}
 	}
 
-	walk(root, 0)
+	if _, err := vfs.Lstat(root); err != nil && len(o.Tops) > 0 {
+		tops := append([]string(nil), o.Tops...)
+		sort.Strings(tops)
+
+		for _, name := range tops {
+			p := root + name
+			if !strings.HasSuffix(root, sep) {
+				p = root + sep + name
+			}
+
+			if _, err := vfs.Lstat(p); err == nil {
+				walk(p, 1)
+			}
+		}
+	} else {
+		walk(root, 0)
+	}
 
 	// SameFile classes and link-count consistency.
 	for i, fi := range files {
